@@ -41,7 +41,34 @@ def run(ctx: Ctx) -> Collector:
     _parse_attrs(ctx, c)
     _readers(ctx, c)
     _entity_model(ctx, c)
+    _type_readers(ctx, c)
     return c
+
+
+def _type_readers(ctx: Ctx, c: Collector) -> None:
+    """The simulator type announced in the meta is read in more than one place (the model factory classifies the
+    attributes by it, the runner's copy decides what the scheduler demands of the step reply): all of them take it the
+    same way -- a spelling that one of them accepts and normalises while another one keeps the raw string is a type the
+    two halves of mosaik disagree on."""
+    HOLE = T.var("<proxy>")
+    seen = {}
+    for fi in analysis_units(ctx.prog):
+        for e in summarise(ctx.prog, fi).of_kind("store"):
+            if e.term[1][0] == "attr" and e.term[1][2] == "type":
+                v = T.strip(e.term[2])
+                srcs = [x for x in T.subterms((v,)) if x[0] == "idx" and x[2] == T.const("type") and x[1][0] == "attr" and x[1][2] == "meta"]
+                if srcs:
+                    seen[(fi.qualname, ctx.loc(fi, e))] = T.replace(v, {srcs[0][1][1]: HOLE})
+    if len(seen) < 2:
+        raise AnalysisError(f"R22: only {len(seen)} readers of meta['type'] found (ModelFactory and SimRunner confirmed by hand)")
+    forms = {}
+    for k, v in seen.items():
+        forms.setdefault(v, []).append(k)
+    if len(forms) > 1:
+        desc = "; ".join(f"{', '.join(q.rsplit('.', 2)[-2] for q, _l in ks)} reads {T.show(v)[:70]}" for v, ks in forms.items())
+        c.bad("type-readers", "mosaik.*", "every reader of meta['type'] takes it the same way", desc, sorted(seen)[0][1])
+    else:
+        c.ok("type-readers", "mosaik.*", "every reader of meta['type'] takes it the same way", f"{len(seen)} readers", "")
 
 
 # --------------------------------------------------------------------------- (a) operators
@@ -257,16 +284,22 @@ def _triple(ctx: Ctx, c: Collector) -> None:
     loc = fi.loc
     NU, NA, NB = ("cmp", "is", u, T.NONE), ("cmp", "is", a, T.NONE), ("cmp", "is", b, T.NONE)
 
-    def resolve(t: Term, none: Dict[Term, bool]) -> Term:
-        """Resolve phi / ifexp nodes whose conditions are None-tests of the parameters."""
+    def resolve(t: Term, none: Dict[Term, bool], env: Optional[Dict[Term, bool]] = None) -> Term:
+        """Resolve phi / ifexp nodes whose conditions are None-tests of the parameters (and, given the membership of
+        the one element of the universe, tests of their truth value: a set is false when it is None or empty)."""
         t = T.strip(t)
         if not t:
             return t
         if t[0] in ("phi", "ifexp"):
-            cond = boolfn.eval_leaves(t[1], none)
-            return resolve(t[2] if cond else t[3], none)
+            def truthy(x):
+                x = T.strip(x)
+                if env is not None and x in (u, a, b):
+                    return (not none[("cmp", "is", x, T.NONE)]) and env[x]
+                return None
+            cond = boolfn.eval_leaves(t[1], none, truthy)
+            return resolve(t[2] if cond else t[3], none, env)
         if isinstance(t, tuple):
-            return tuple(resolve(x, none) if isinstance(x, tuple) else x for x in t)
+            return tuple(resolve(x, none, env) if isinstance(x, tuple) else x for x in t)
         return t
 
     raises = s.of_kind("raise")
@@ -292,7 +325,11 @@ def _triple(ctx: Ctx, c: Collector) -> None:
                 problems["missing"].append(f"{tag}: two sets are given but an error is raised")
                 continue
             # final values of the three sets as pointwise functions of the given ones
-            fa, fb = resolve(ret.term[1][0], none), resolve(ret.term[1][1], none)
+            try:
+                fa, fb = resolve(ret.term[1][0], none), resolve(ret.term[1][1], none)
+                per_env = False
+            except boolfn.NotBoolean:
+                per_env = True          # the inference depends on the truth value of a set: decided per element below
             # the union after inference: find it in the coverage test
             later = [r for r in raises if not _only_none_guards(r.guards, (NU, NA, NB))]
             for uu, aa, bb in itertools.product([False, True], repeat=3):
@@ -306,6 +343,8 @@ def _triple(ctx: Ctx, c: Collector) -> None:
                     eu, ea, eb = uu, aa, uu and not aa
                 else:
                     eu, ea, eb = uu, aa, bb
+                if per_env:
+                    fa, fb = resolve(ret.term[1][0], none, env), resolve(ret.term[1][1], none, env)
                 ga, gb = _pointwise(fa, env), _pointwise(fb, env)
                 if (ga, gb) != (ea, eb):
                     if (ga, gb) == (eb, ea):
@@ -333,7 +372,7 @@ def _triple(ctx: Ctx, c: Collector) -> None:
                 for r, own in tests:
                     holds = True
                     for g in own:
-                        dec = _set_eq_forall(resolve(g[1], none))
+                        dec = _set_eq_forall(resolve(g[1], none, env))
                         if dec is None:
                             raise Unknown(f"rejection test {T.show(g[1])[:80]} is not a set (in)equality")
                         L, R, is_eq = dec
